@@ -101,6 +101,10 @@ type HSFields struct {
 	PostSeal                     func(enc []byte) []byte
 	// dh_gen_*
 	NewNonceHash []byte
+	// InnerOverride, if non-nil, replaces the serialised server_DH_inner_data (hash and padding are computed over it honestly)
+	InnerOverride func(honest []byte) []byte
+	// ReplyOverride, if non-nil, replaces the whole plaintext reply body of this stage
+	ReplyOverride []byte
 }
 
 type Server struct {
@@ -472,6 +476,13 @@ func (r *rd) bytes() []byte {
 	return v
 }
 
+func (c *Conn) sendPlainOr(f *HSFields, body []byte) {
+	if f != nil && f.ReplyOverride != nil {
+		body = f.ReplyOverride
+	}
+	c.sendPlain(body)
+}
+
 func (c *Conn) sendPlain(body []byte) {
 	id := c.S.NextMsgID(1)
 	c.S.emit("srv.plainsend", map[string]interface{}{"conn": c.ID, "msg_id": fmt.Sprint(id), "ctor": ctorOf(body), "len": len(body)})
@@ -526,7 +537,7 @@ func (c *Conn) handlePlain(msgID int64, body []byte) {
 		for _, fp := range f.Fingerprints {
 			b = append(b, le64(uint64(fp))...)
 		}
-		c.sendPlain(b)
+		c.sendPlainOr(f, b)
 	case 0xd712e4be: // req_DH_params nonce server_nonce p q fingerprint encrypted_data
 		h := c.hs
 		if h == nil {
@@ -591,6 +602,9 @@ func (c *Conn) handlePlain(msgID int64, body []byte) {
 		ans = append(ans, mtp.TLBytes(f.Prime)...)
 		ans = append(ans, mtp.TLBytes(f.GA)...)
 		ans = append(ans, le32(uint32(f.ServerTime))...)
+		if f.InnerOverride != nil {
+			ans = f.InnerOverride(ans)
+		}
 		padLen := (16 - (20+len(ans))%16) % 16
 		switch {
 		case f.AnswerPad >= 0:
@@ -624,7 +638,7 @@ func (c *Conn) handlePlain(msgID int64, body []byte) {
 		b = append(b, f.Nonce...)
 		b = append(b, f.ServerNonce...)
 		b = append(b, mtp.TLBytes(encAns)...)
-		c.sendPlain(b)
+		c.sendPlainOr(f, b)
 	case 0xf5045f1f: // set_client_DH_params nonce server_nonce encrypted_data
 		h := c.hs
 		if h == nil || h.newNonce == nil {
@@ -670,7 +684,7 @@ func (c *Conn) handlePlain(msgID int64, body []byte) {
 		b = append(b, f.Nonce...)
 		b = append(b, f.ServerNonce...)
 		b = append(b, f.NewNonceHash...)
-		c.sendPlain(b)
+		c.sendPlainOr(f, b)
 	default:
 		s.emit("hs.error", map[string]interface{}{"conn": c.ID, "stage": "plain", "err": fmt.Sprintf("unexpected plain constructor %#08x", ctorOf(body))})
 	}
